@@ -165,3 +165,4 @@
            (and (= (ndots s a b) (ite (= (Str.nth s a) 46) 1 0))
                 (= (ndots s a c) (+ (ndots s a b) (ndots s b c)))))
        :pattern ((ndots s a c) (ndots s b c)))))
+(lemma nsemi-nonneg :induction n (forall ((t Seq_Token) (n Int)) (! (>= (nsemi t n) 0) :pattern ((nsemi t n)))))
